@@ -80,6 +80,8 @@ def build(s: DScn):
     with warnings.catch_warnings():
         warnings.simplefilter("ignore")
         cls = type(StateMachine)("M_" + re.sub(r"\W", "_", s.name), (StateMachine,), ns)
+        if s.subclass:
+            cls = type(StateMachine)("Sub_" + cls.__name__, (cls,), {})
     model_cls = type("Mdl", (), model_ns)
     return cls, model_cls
 
